@@ -123,3 +123,31 @@ package mempool
 //@ loop 0 invariant[wf] mapsOK(mp) && wfItems(mp) && wfCount(mp) && mp.capacity == old(mp.capacity) && len(mp.verifiedTxes) <= old(len(mp.verifiedTxes))
 //@ loop 0 invariant[atomic] len(mp.verifiedTxes) < old(len(mp.verifiedTxes)) || (unchanged(mp.verifiedTxes) && unchanged(mp.verifiedMap) && unchanged(mp.conflicts) && unchanged(mp.oracleResp))
 //@ loop 1 invariant[wf] mapsOK(mp) && len(mp.verifiedTxes) <= mp.capacity && has(mp.verifiedMap, transaction.txHash(t)) && mp.verifiedMap[transaction.txHash(t)] == t
+
+// Re-verification of the pool after a new block: the list is filtered in place, the fee
+// and conflict indexes are rebuilt from the items that stay.
+//@ func (*Pool).loadPolicy
+//@ requires mp != nil && feer != nil
+//@ modifies mp.feePerByte
+//@ ensures[raised] mp.feePerByte >= old(mp.feePerByte) && result == (mp.feePerByte > old(mp.feePerByte))
+
+//@ func (*Pool).checkPolicy
+//@ requires mp != nil && tx != nil
+//@ ensures[policy] result == (!policyChanged || tx.NetworkFee / transaction.txSize(tx) >= mp.feePerByte)
+
+//@ spec conflictsListed(mp *Pool, tx *transaction.Transaction) bool = forall(k, 0, len(tx.Attributes), tx.Attributes[k].Type == transaction.ConflictsT ==> has(mp.conflicts, tx.Attributes[k].Value.(*transaction.Conflicts).Hash))
+//@ func (*Pool).RemoveStale
+//@ opt callbacks pure
+//@ requires mapsOK(mp) && feer != nil && isOK != nil && wfItems(mp)
+//@ modifies mp.verifiedTxes, elems(item), mp.verifiedMap, mp.fees, mp.conflicts, mp.oracleResp, elems(util.Uint256), mp.feePerByte
+//@ ensures[len] len(mp.verifiedTxes) <= old(len(mp.verifiedTxes))
+//@ ensures[items] wfItems(mp)
+//@ ensures[listed] forall(j, 0, len(mp.verifiedTxes), conflictsListed(mp, mp.verifiedTxes[j].txn))
+//@ loop 0 invariant[listed] forall(j, 0, len(newVerifiedTxes), conflictsListed(mp, newVerifiedTxes[j].txn))
+//@ loop 1 invariant[listed] forall(j, 0, len(newVerifiedTxes) - 1, conflictsListed(mp, newVerifiedTxes[j].txn))
+//@ loop 1 invariant[cur] forall(k, 0, $i, has(mp.conflicts, $range[k].Value.(*transaction.Conflicts).Hash))
+//@ loop 0 invariant[alias] same(newVerifiedTxes, old(mp.verifiedTxes)[:len(newVerifiedTxes)]) && len(newVerifiedTxes) <= $i
+//@ loop 0 invariant[hdr] same(mp.verifiedTxes, old(mp.verifiedTxes))
+//@ loop 0 invariant[maps] mapsOK(mp)
+//@ loop 0 invariant[rest] forall(j, $i, len(mp.verifiedTxes), mp.verifiedTxes[j] == old(mp.verifiedTxes[j]))
+//@ loop 0 invariant[kept] forall(j, 0, len(newVerifiedTxes), newVerifiedTxes[j].txn != nil && wfTx(newVerifiedTxes[j].txn) && transaction.wfAttrs(newVerifiedTxes[j].txn))
